@@ -229,6 +229,7 @@ type renderer struct {
 	errs   []string
 	loops  []loopFrame
 	match  string // current regex match for replacement functions
+	ts     bool   // TypeScript placeholders
 }
 
 type loopFrame struct {
@@ -388,10 +389,19 @@ func (r *renderer) hole(h *SHole) string {
 		case strings.HasSuffix(p, ".Name") || strings.HasSuffix(p, ".Name)"):
 			return fmt.Sprintf("T%d", it)
 		case strings.HasSuffix(p, ".GetCode()"):
+			if r.ts {
+				return "// prologue\n"
+			}
 			return "package main\n\nimport \"fmt\"\n"
 		case strings.HasSuffix(p, ".GetUion()"):
+			if r.ts {
+				return "val :number;"
+			}
 			return "val int"
 		case strings.HasSuffix(p, ".GetCodeCopy()"):
+			if r.ts {
+				return "\nfunction GetToken(input :string, model :{ValType :ValType, pos :number}) :number { return -1 }\n"
+			}
 			return "\nfunc GetToken(input string, val *ValType, pos *int) int { return -1 }\n"
 		}
 		r.errf("string hole with unclassified provenance %s in %s", p, h.Fn)
